@@ -2,6 +2,7 @@
 //! `Fmt` (real writer + real reader over simulated seams).
 
 pub mod avro;
+pub mod c04;
 pub mod c15;
 pub mod c18;
 pub mod ipc;
